@@ -100,52 +100,53 @@ Proof.
 Qed.
 
 (* ------------------------------------------------------------ copy / move *)
-Definition delivered (d : mbox) (ds : bool) (cs : list msg) : mbox :=
-  mkBox (b_msgs d ++ copies_from (b_maxuid d + 1) (negb ds) cs)
-        (b_maxuid d + N.of_nat (length cs)) (b_ro d) (b_perm d).
+Definition delivered (bk : backend) (d : mbox) (ds : bool) (cs : list msg) : mbox :=
+  mkBox (b_msgs d ++ copies_from bk (b_perm d) (b_maxuid d + 1) (negb ds) cs)
+        (b_maxuid d + N.of_nat (length cs)) (b_ro d) (b_perm d) (b_uidv d).
 Definition without (cs : list msg) (l : list msg) : list msg :=
   filter (fun m => negb (memN (m_uid m) (uids_of cs))) l.
 
-Lemma delivered_cons d ds c cs :
-  delivered (fst (mb_add d (m_flags c) (m_date c) (m_cid c) (negb ds))) ds cs = delivered d ds (c :: cs).
+Lemma delivered_cons bk d ds c cs :
+  delivered bk (fst (mb_add d (storable bk (b_perm d) (m_flags c)) (m_date c) (m_cid c) (negb ds))) ds cs
+  = delivered bk d ds (c :: cs).
 Proof.
   unfold delivered, mb_add. cbn [fst b_msgs b_maxuid b_ro b_perm copies_from length].
   rewrite <- app_assoc. cbn [app]. f_equal. lia.
 Qed.
 
-Lemma copies_uids_gt u rc cs m : In m (copies_from u rc cs) -> u <= m_uid m.
+Lemma copies_uids_gt bk P u rc cs m : In m (copies_from bk P u rc cs) -> u <= m_uid m.
 Proof.
   revert u. induction cs as [|c r IH]; intros u H; cbn [copies_from] in H; [destruct H|].
   destruct H as [<-|H]; [cbn; lia|]. apply IH in H. lia.
 Qed.
-Lemma copies_length u rc cs : length (copies_from u rc cs) = length cs.
+Lemma copies_length bk P u rc cs : length (copies_from bk P u rc cs) = length cs.
 Proof. revert u. induction cs as [|c r IH]; intros u; cbn; [reflexivity|]. rewrite IH. reflexivity. Qed.
 
 (* COPY: the loop delivers the copies, in order *)
-Lemma copy_loop_copy src dst ds : forall pairs bs rec d,
+Lemma copy_loop_copy bk src dst ds : forall pairs bs rec d,
   lookup dst bs = Some d ->
   (forall c, In c (map snd pairs) ->
      exists sb, lookup src bs = Some sb /\ find_msg (m_uid c) (b_msgs sb) = Some c) ->
-  copy_loop false src dst ds bs rec pairs =
-  (set_box dst (delivered d ds (map snd pairs)) bs,
+  copy_loop bk false src dst ds bs rec pairs =
+  (set_box dst (delivered bk d ds (map snd pairs)) bs,
    (if ds then fold_left (fun r u => add_recent u r)
-                         (uids_of (copies_from (b_maxuid d + 1) (negb ds) (map snd pairs))) rec
+                         (uids_of (copies_from bk (b_perm d) (b_maxuid d + 1) (negb ds) (map snd pairs))) rec
     else rec),
    combine (uids_of (map snd pairs))
-           (uids_of (copies_from (b_maxuid d + 1) (negb ds) (map snd pairs)))).
+           (uids_of (copies_from bk (b_perm d) (b_maxuid d + 1) (negb ds) (map snd pairs)))).
 Proof.
   induction pairs as [|[q c] r IH]; intros bs rec d Hd Hsrc; cbn [copy_loop map snd].
   - unfold delivered. cbn [copies_from length]. rewrite app_nil_r, N.add_0_r.
-    replace (mkBox (b_msgs d) (b_maxuid d) (b_ro d) (b_perm d)) with d by (destruct d; reflexivity).
+    replace (mkBox (b_msgs d) (b_maxuid d) (b_ro d) (b_perm d) (b_uidv d)) with d by (destruct d; reflexivity).
     rewrite (set_box_id _ _ _ Hd). destruct ds; reflexivity.
   - destruct (Hsrc c (or_introl eq_refl)) as (sb & Hsb & Hf). rewrite Hsb, Hf, Hd.
     cbn [mb_add].
-    set (d' := mkBox (b_msgs d ++ [mkMsg (b_maxuid d + 1) (m_flags c) (m_date c) (m_cid c) (negb ds)])
-                     (b_maxuid d + 1) (b_ro d) (b_perm d)).
+    set (d' := mkBox (b_msgs d ++ [mkMsg (b_maxuid d + 1) (storable bk (b_perm d) (m_flags c)) (m_date c) (m_cid c) (negb ds)])
+                     (b_maxuid d + 1) (b_ro d) (b_perm d) (b_uidv d)).
     assert (Hd' : lookup dst (set_box dst d' bs) = Some d') by (rewrite lookup_set_box_same, Hd; reflexivity).
     rewrite (IH (set_box dst d' bs) _ d' Hd').
     + rewrite set_box_twice.
-      change d' with (fst (mb_add d (m_flags c) (m_date c) (m_cid c) (negb ds))).
+      change d' with (fst (mb_add d (storable bk (b_perm d) (m_flags c)) (m_date c) (m_cid c) (negb ds))).
       rewrite delivered_cons. cbn [mb_add fst b_maxuid copies_from uids_of map fold_left combine].
       destruct ds; reflexivity.
     + intros c' Hc'. destruct (Hsrc c' (or_intror Hc')) as (sb' & Hsb' & Hf').
@@ -193,22 +194,22 @@ Proof.
   intros H. unfold without. apply filter_all. intros m Hm. apply negb_true_iff, memN_false, H, Hm.
 Qed.
 
-Lemma copy_loop_move src dst ds : forall pairs bs rec d sb,
+Lemma copy_loop_move bk src dst ds : forall pairs bs rec d sb,
   lookup dst bs = Some d -> lookup src bs = Some sb ->
   NoDup (uids_of (map snd pairs)) ->
   (forall c, In c (map snd pairs) -> find_msg (m_uid c) (b_msgs sb) = Some c) ->
   (src = dst -> forall c, In c (map snd pairs) -> m_uid c <= b_maxuid d) ->
-  copy_loop true src dst ds bs rec pairs =
-  (moved_out src (map snd pairs) (set_box dst (delivered d ds (map snd pairs)) bs),
+  copy_loop bk true src dst ds bs rec pairs =
+  (moved_out src (map snd pairs) (set_box dst (delivered bk d ds (map snd pairs)) bs),
    (if ds then fold_left (fun r u => add_recent u r)
-                         (uids_of (copies_from (b_maxuid d + 1) (negb ds) (map snd pairs))) rec
+                         (uids_of (copies_from bk (b_perm d) (b_maxuid d + 1) (negb ds) (map snd pairs))) rec
     else rec),
    combine (uids_of (map snd pairs))
-           (uids_of (copies_from (b_maxuid d + 1) (negb ds) (map snd pairs)))).
+           (uids_of (copies_from bk (b_perm d) (b_maxuid d + 1) (negb ds) (map snd pairs)))).
 Proof.
   induction pairs as [|[q c] r IH]; intros bs rec d sb Hd Hsb Hnd Hfind Hle; cbn [copy_loop map snd].
   - unfold delivered. cbn [copies_from length]. rewrite app_nil_r, N.add_0_r.
-    replace (mkBox (b_msgs d) (b_maxuid d) (b_ro d) (b_perm d)) with d by (destruct d; reflexivity).
+    replace (mkBox (b_msgs d) (b_maxuid d) (b_ro d) (b_perm d) (b_uidv d)) with d by (destruct d; reflexivity).
     rewrite (set_box_id _ _ _ Hd). unfold moved_out. rewrite Hsb.
     unfold without. cbn [uids_of map memN existsb negb]. rewrite filter_all by reflexivity.
     replace (set_msgs sb (b_msgs sb)) with sb by (destruct sb; reflexivity).
@@ -225,12 +226,12 @@ Proof.
     + (* into the same mailbox *)
       subst dst. rewrite Hsb in Hd. inversion Hd; subst d. rewrite lookup_set_box_same, Hsb.
       cbn [mb_add]. rewrite set_box_twice.
-      set (d' := mkBox (b_msgs sb2 ++ [mkMsg (b_maxuid sb2 + 1) (m_flags c) (m_date c) (m_cid c) (negb ds)])
-                       (b_maxuid sb2 + 1) (b_ro sb2) (b_perm sb2)).
+      set (d' := mkBox (b_msgs sb2 ++ [mkMsg (b_maxuid sb2 + 1) (storable bk (b_perm sb2) (m_flags c)) (m_date c) (m_cid c) (negb ds)])
+                       (b_maxuid sb2 + 1) (b_ro sb2) (b_perm sb2) (b_uidv sb2)).
       assert (Hd' : lookup src (set_box src d' bs) = Some d') by (rewrite lookup_set_box_same, Hsb; reflexivity).
       rewrite (IH (set_box src d' bs) _ d' d' Hd' Hd' Hnd').
       * rewrite set_box_twice. unfold moved_out. rewrite !lookup_set_box_same, Hsb. rewrite !set_box_twice.
-        change d' with (fst (mb_add sb2 (m_flags c) (m_date c) (m_cid c) (negb ds))).
+        change d' with (fst (mb_add sb2 (storable bk (b_perm sb2) (m_flags c)) (m_date c) (m_cid c) (negb ds))).
         rewrite delivered_cons.
         cbn [mb_add fst b_maxuid copies_from uids_of map fold_left combine d' sb2 mb_delete set_msgs].
         apply (f_equal2 pair); [apply (f_equal2 pair)|reflexivity].
@@ -257,15 +258,15 @@ Proof.
         specialize (Hle eq_refl c' (or_intror Hc')). lia.
     + (* into another mailbox *)
       rewrite lookup_set_box_other by congruence. rewrite Hd. cbn [mb_add].
-      set (d' := mkBox (b_msgs d ++ [mkMsg (b_maxuid d + 1) (m_flags c) (m_date c) (m_cid c) (negb ds)])
-                       (b_maxuid d + 1) (b_ro d) (b_perm d)).
+      set (d' := mkBox (b_msgs d ++ [mkMsg (b_maxuid d + 1) (storable bk (b_perm d) (m_flags c)) (m_date c) (m_cid c) (negb ds)])
+                       (b_maxuid d + 1) (b_ro d) (b_perm d) (b_uidv d)).
       assert (Hd' : lookup dst (set_box dst d' (set_box src sb2 bs)) = Some d').
       { rewrite lookup_set_box_same, lookup_set_box_other by congruence. rewrite Hd. reflexivity. }
       assert (Hs' : lookup src (set_box dst d' (set_box src sb2 bs)) = Some sb2).
       { rewrite lookup_set_box_other by congruence. rewrite lookup_set_box_same, Hsb. reflexivity. }
       rewrite (IH _ _ d' sb2 Hd' Hs' Hnd' Hfind2) by (intros E; congruence).
       rewrite set_box_twice.
-      change d' with (fst (mb_add d (m_flags c) (m_date c) (m_cid c) (negb ds))).
+      change d' with (fst (mb_add d (storable bk (b_perm d) (m_flags c)) (m_date c) (m_cid c) (negb ds))).
       rewrite delivered_cons.
       cbn [mb_add fst b_maxuid copies_from uids_of map fold_left combine].
       apply (f_equal2 pair); [apply (f_equal2 pair)|reflexivity]; [|destruct ds; reflexivity].
